@@ -123,6 +123,10 @@ def run_shard(spec):
             bad = chr(rnd.choice([0x20AC, rnd.randrange(0x100, 0x2000), rnd.randrange(0xA0, 0xC0), rnd.randrange(0x3000, 0xD000), 0x7F, 0x7F, 0xA0, 0xFF]))
             while bad in ref_chars:
                 bad = chr(rnd.randrange(0x100, 0x2000))
+            if rnd.random() < 0.3:
+                # characters (and base + combining mark sequences) that Unicode normalisation, case mapping or compatibility folding
+                # would turn into a table character: they are not in the table themselves
+                bad = rnd.choice(_foldable(ref_chars))
             chars[rnd.randrange(len(chars))] = bad
         case = {"kind": "asm", "mode": mode, "chars": "".join(chars), "before": rnd.choice([None, None, "utf-8", "cp866", "koi8-r", "latin-1", "utf-16"])}
         vs = run_case(case, cnt)
@@ -133,6 +137,32 @@ def run_shard(spec):
         if i < 2:
             res["samples"].append(case)
     return res
+
+
+_FOLD = []
+
+
+def _foldable(ref_chars):
+    if not _FOLD:
+        import unicodedata
+        pool = set()
+        for cp in range(0x80, 0x10000):
+            if 0xD800 <= cp < 0xE000:
+                continue
+            c = chr(cp)
+            if c in ref_chars:
+                d = unicodedata.normalize("NFD", c)
+                if d != c and not all(x in ref_chars for x in d):
+                    pool.add(d)                                   # decomposed spelling of a table character
+                continue
+            for form in ("NFC", "NFKC"):
+                n = unicodedata.normalize(form, c)
+                if n != c and n and all(x in ref_chars for x in n):
+                    pool.add(c)
+            if len(c.upper()) == 1 and c.upper() in ref_chars and ord(c.upper()) < 0x80 or len(c.lower()) == 1 and c.lower() in ref_chars and ord(c.lower()) < 0x80:
+                pool.add(c)
+        _FOLD.extend(sorted(pool))
+    return _FOLD
 
 
 def run_case(case, cnt=None):
